@@ -1346,6 +1346,7 @@ func genC02(c *Ctx) {
 	g.ppkMetaFamily()
 	g.ppkCommentBlanks()
 	g.labelMismatch()
+	g.hostPatterns()
 	g.cryptoKeys()
 	g.certKeys()
 	g.pgpKeys()
